@@ -125,6 +125,42 @@ def record_context(prog, R):
     return (idxs[0] if idxs else None), restore
 
 
+def _field_set_rule(ctx, prog, sa):
+    """must-definition of ``self[<literal>]`` over the CFG of set_attributes, exceptional edges included (an exception edge
+    carries the state from before the statement that raised)."""
+    from ..flow import BasePolicy, TagFlow
+
+    class P(BasePolicy):
+        def initial(self, flow):
+            return {"$keys": frozenset()}
+
+        def after_stmt(self, node, state, flow):
+            st = node.stmt
+            if node.kind == "stmt" and isinstance(st, (ast.Assign, ast.AnnAssign)):
+                tg = st.targets if isinstance(st, ast.Assign) else [st.target]
+                for t in tg:
+                    if isinstance(t, ast.Subscript) and canon(t.value) == "self":
+                        k = const_str(t.slice)
+                        if k:
+                            state["$keys"] = state.get("$keys", frozenset()) | {k}
+            return state
+
+    fl = TagFlow(prog, sa, P())
+    st = fl.state_at_exit()
+    if st is None:
+        ctx.undecided("set_attributes has no normal exit")
+        return
+    must = st.get("$keys", frozenset())
+    may = {}
+    for t, v, s_, k in iter_stores(sa.node):
+        if isinstance(t, ast.Subscript) and canon(t.value) == "self":
+            key = const_str(t.slice)
+            if key:
+                may.setdefault(key, s_)
+    for key in sorted(may):
+        ctx.check(key in must, sa, may[key], f"result['{key}'] stored on every path", f"result field '{key}' is stored on some paths only (e.g. not when an exception handler runs): results of different runs expose different field sets and result['{key}'] / result.{key} raises", construct=f"result[{key}] not stored on every path")
+
+
 def check(ctx):
     prog = ctx.prog
     R = roles_of(prog)
@@ -319,6 +355,10 @@ def check(ctx):
     for key, lst in stores.items():
         if allowed is not None and key not in allowed:
             ctx.fail(sa, lst[0][1], f"result key '{key}' is not in OptimizeResult._keys: building the result raises", construct=f"result key {key}")
+    # ------------------------------------------------------------------ R6
+    ctx.rule("R6", "the result has the same field set on every path: a field stored anywhere in set_attributes is stored on all paths to its return", floor=10)
+    _field_set_rule(ctx, prog, sa)
+
     ctx.assume("copy.deepcopy yields an independent copy of arrays, lists and GP objects")
 
 
